@@ -212,6 +212,12 @@ fn check_span(ctx: &mut Ctx, s: &str, a: usize, b: usize) -> Result<(), Fail> {
     if header.trim_start() != format!("--> {sl}:{sc}") {
         return Err(mk_fail("error-span-header", s, a, Some(b), format!("first row {header:?}, expected --> {sl}:{sc}")));
     }
+    // all gutter bars of the rendering are in one column (otherwise neither the line text nor the
+    // marker is under the column the header reports)
+    let bars: Vec<usize> = rows.iter().skip(1).filter_map(|r| r.find(" |").map(|i| r[..i + 2].chars().count())).collect();
+    if bars.windows(2).any(|w| w[0] != w[1]) {
+        return Err(mk_fail("error-span-gutter", s, a, Some(b), format!("the `|` gutter is not aligned across rows: {rows:?}")));
+    }
     // every numbered row must carry a line number of a line the span overlaps (or touches)
     let last_line = got_end.0.max(sl);
     for r in rows.iter().skip(1) {
@@ -226,8 +232,9 @@ fn check_span(ctx: &mut Ctx, s: &str, a: usize, b: usize) -> Result<(), Fail> {
             }
         }
     }
-    if a < b {
-        // strict: the start line row shows the start line's text
+    {
+        // strict: the start line row shows the text of the line containing the start offset
+        // (also for an empty span: the error is *at* that offset)
         let (la, lb) = o_line_of(s, a);
         let line = &s[la..lb];
         let row = rows.get(2).copied().unwrap_or("");
@@ -331,7 +338,12 @@ pub fn run(ctx: &mut Ctx) {
         1 => Just("€😀".to_string()),
         1 => Just("\u{2028}".to_string()),
     ];
-    let strat = (proptest::collection::vec(sym, 0..40), any::<u16>(), any::<u16>()).prop_map(|(v, x, y)| (v.concat(), x, y));
+    let strat = (proptest::collection::vec(sym, 0..40), 0usize..14, any::<u16>(), any::<u16>()).prop_map(|(v, pre, x, y)| {
+        // a prefix of short lines makes line numbers cross 9 -> 10 regularly
+        let mut s: String = (0..pre).map(|i| if i % 3 == 0 { "x\n" } else { "\n" }).collect();
+        s.push_str(&v.concat());
+        (s, x, y)
+    });
     ctx.run_prop(cases, 1, strat, |ctx, (s, x, y)| {
         let a = (*x as usize * (s.len() + 2)) >> 16;
         let b = (*y as usize * (s.len() + 2)) >> 16;
